@@ -176,3 +176,11 @@ func toJ(x interface{}) *J {
 	}
 	return &J{Kind: 0}
 }
+
+// SetLayoutFirstByte makes b the first byte of the text: white space in front of the value, or the opening brace itself.
+func (s *Stream) SetLayoutFirstByte(b int) {
+	d := s.content()
+	if b != '{' && (len(d) == 0 || d[0] != byte(b)) {
+		s.data = append([]byte{byte(b)}, d...)
+	}
+}
